@@ -1,5 +1,5 @@
 (* C05 - the accepted language is exactly the documented grammar over the reference tokenisation. *)
-From Spdx Require Import Props.Shipped Spec.Lex Spec.Grammar Spec.Reject Proofs.ScanRef Proofs.ParseGrammar Proofs.ApiFacts Proofs.RejectProof Proofs.Unknown.
+From Spdx Require Import Props.Shipped Spec.Lex Spec.Grammar Spec.Reject Proofs.ScanRef Proofs.ParseGrammar Proofs.ApiFacts Proofs.RejectProof Proofs.Unknown Proofs.IdWords.
 Local Open Scope list_scope.
 
 (* the scanner of scan.go, with its buffer rewriting and look-behind, is the reference tokeniser *)
@@ -81,6 +81,13 @@ Example C05_classes_nonvacuous :
   = [Some false; Some false; Some false; Some false; Some false; Some false; Some false; Some false; Some false; Some false; Some false; Some false; Some true].
 Proof. vm_compute. reflexivity. Qed.
 
+(* which words are license / exception ids, in the words of the property and independently of the lookup cascade: on the
+   lists up to letter case; such an id with the documented -only / -or-later suffix; before a '+', the base of a listed
+   X-or-later id; a deprecated id.  (The reference tokeniser and the model of scan.go share `classify`; this theorem is
+   what `classify` means.) *)
+Theorem C05_id_words w next_plus : classify T0 w next_plus <> NUnknown <-> id_word T0 w next_plus.
+Proof. exact (classify_known_iff T0 w next_plus). Qed.
+
 (* "unknown ids": a word that no lookup rule recognises makes the text invalid, at the start, after a space or after "(" *)
 Lemma invalid_of_ref_err s e : ref_tokens T0 s = Err e -> validb T0 s = false.
 Proof.
@@ -110,5 +117,5 @@ Example C05_examples :
 Proof. vm_compute. split; reflexivity. Qed.
 
 (* axioms the property theorems of this file depend on (one traversal for all of them) *)
-Definition C05_theorems := (@C05_scanner_general, @C05, @C05_accepted_iff_shape, @C05_parser_accepts_iff_shape, @C05_rejected_bad_pair, @C05_rejected_bad_first, @C05_rejected_bad_last, @C05_rejected_unbalanced, @C05_named_classes, @C05_unknown_ids_rejected).
+Definition C05_theorems := (@C05_scanner_general, @C05, @C05_accepted_iff_shape, @C05_parser_accepts_iff_shape, @C05_rejected_bad_pair, @C05_rejected_bad_first, @C05_rejected_bad_last, @C05_rejected_unbalanced, @C05_named_classes, @C05_id_words, @C05_unknown_ids_rejected).
 Redirect "assumptions/C05" Print Assumptions C05_theorems.
